@@ -87,6 +87,13 @@ Theorem SC_run_alone_next :
     = Some (RetNum g, shared_of_level l (wadd g 1)).
 Proof. exact run_alone_next. Qed.
 
+(* snapshot(), run alone (four steps): the three aggregates and the listing, nothing changed *)
+Theorem SC_run_alone_snapshot :
+  forall mf l g, exists n, forall fuel, (n <= fuel)%nat ->
+    run_alone mf fuel (start (price l) CSnapshot) (shared_of_level l g)
+    = Some (RetSnap (cvis l) (chid l) (ccnt l) (to_vec (lq l)), shared_of_level l g).
+Proof. exact run_alone_snapshot. Qed.
+
 (* all calls at once: [seq_call] is the sequential meaning of a call on (level, generator) *)
 Theorem SC_seq_call_unfold :
   forall mf fuel l g c,
@@ -104,6 +111,7 @@ Theorem SC_seq_call_unfold :
     | CReadCnt => Some (l, g, RetNum (ccnt l))
     | CList => Some (l, g, RetList (to_vec (lq l)))
     | CNext => Some (l, wadd g 1, RetNum g)
+    | CSnapshot => Some (l, g, RetSnap (cvis l) (chid l) (ccnt l) (to_vec (lq l)))
     end.
 Proof. reflexivity. Qed.
 
@@ -267,6 +275,7 @@ Print Assumptions SC_run_alone_read_hid.
 Print Assumptions SC_run_alone_read_cnt.
 Print Assumptions SC_run_alone_list.
 Print Assumptions SC_run_alone_next.
+Print Assumptions SC_run_alone_snapshot.
 Print Assumptions SC_seq_call_unfold.
 Print Assumptions SC_run_alone_call.
 Print Assumptions SC_accept_sound.
